@@ -333,6 +333,23 @@ def arrpoly_fails(case):
         Jf = UTPM.extract_jacobian(f(UTPM.init_jacobian(x)))
     except Exception as ex:
         return 'arrpoly-exception: %s' % (type(ex).__name__ + ':' + str(ex)[:100])
+    # reading an ARRAY-valued result is repeatable too (entries of y.data are views there, not scalars): no extractor modifies the
+    # evaluated polynomial, a second read and the read of one component afterwards give the same numbers
+    for nm, ext, y_ in (('jacobian', lambda y: UTPM.extract_jacobian(y), f(UTPM.init_jacobian(x))),
+                        ('jac_vec', lambda y: UTPM.extract_jac_vec(y), f(UTPM.init_jac_vec(x, v))),
+                        ('hessian', lambda y: UTPM.extract_hessian(N, y), f(UTPM.init_hessian(x))),
+                        ('hess_vec', lambda y: UTPM.extract_hess_vec(N, y), f(UTPM.init_hess_vec(x, v))),
+                        ('tensor', lambda y: UTPM.extract_tensor(N, y), f(UTPM.init_tensor(2, x)))):
+        try:
+            before = np.array(y_.data)
+            first = np.array(ext(y_))
+            second = np.array(ext(y_))
+        except Exception as ex:
+            return 'arrpoly-%s-exception: %s' % (nm, type(ex).__name__ + ':' + str(ex)[:80])
+        if not np.array_equal(before, y_.data):
+            return 'arrpoly-%s-mutates: extract_%s modified the coefficients of the array-valued polynomial it reads' % (nm, nm)
+        if not np.array_equal(first, second, equal_nan=True):
+            return 'arrpoly-%s-repeat: a second extract_%s of the same array-valued result differs from the first' % (nm, nm)
     want = J @ v
     if np.shape(Jv) != want.shape or not close(Jv, want, 1e-10):
         return 'arrpoly-jac_vec: extract_jac_vec of an output of shape %s has shape %s / differs from the exact J v' % (oshape, np.shape(Jv))
